@@ -15,8 +15,7 @@ case "$ID" in
   C10|C11) CRATE=vsst ;;
   C09) CRATE=c09 ;;
   C12) CRATE=c12 ;;
-  C01|C02|C03|C04|C05|C07|C08|C13|C20) CRATE=vstore ;;
-  C06) CRATE=c06 ;;
+  C01|C02|C03|C04|C05|C06|C07|C08|C13|C20) CRATE=vstore ;;
   *) echo "unknown property $ID" >&2; exit 2 ;;
 esac
 cd "$H" || exit 2
